@@ -64,6 +64,48 @@ func c09(c *core.Ctx) {
 		if len(writers) == 0 {
 			c.Missing("store of the GRPC-Timeout request header in httpgrpc")
 		}
+		// the header a request carries was computed for that request: between two issues of a request (a retry)
+		// the header computation runs again — the remaining time has shrunk meanwhile
+		{
+			wfn := map[*ssa.Function]bool{}
+			for _, w := range writers {
+				wfn[w.fn] = true
+			}
+			var reachesWriter func(f *ssa.Function, depth int) bool
+			reachesWriter = func(f *ssa.Function, depth int) bool {
+				if f == nil || f.Blocks == nil || depth > 2 {
+					return false
+				}
+				if wfn[f] {
+					return true
+				}
+				for _, h := range core.HelperCallsOf(f) {
+					if reachesWriter(h.Callee, depth+1) {
+						return true
+					}
+				}
+				return false
+			}
+			isHdr := func(in ssa.Instruction) bool {
+				cc := core.CallOf(in)
+				return cc != nil && cc.StaticCallee() != nil && reachesWriter(cc.StaticCallee(), 0)
+			}
+			for _, fn := range p.LibFuncs("httpgrpc") {
+				var issues []ssa.Instruction
+				core.Instrs(fn, func(in ssa.Instruction) {
+					if isRequestIssue(in) {
+						issues = append(issues, in)
+					}
+				})
+				for _, a := range issues {
+					for _, b := range issues {
+						if core.Reachable(core.After(a), b) {
+							c.Check(core.MustPass(core.After(a), b, isHdr), core.FuncName(fn)+":timeout-computed-per-request", b.Pos(), "the header computation runs again before the request is issued again", "a request can be issued again with the timeout header computed before the earlier attempt: the server is told the time that remained THEN, so the handler's deadline lies later than the caller's by however long the first attempt took")
+						}
+					}
+				}
+			}
+		}
 		for _, w := range writers {
 			name := core.FuncName(w.fn)
 			if w.call == nil {
